@@ -29,6 +29,9 @@ pub struct SweepOut {
     pub bound: f64,
     pub events: u64,
     pub early: bool,
+    /// events still in the queue when the sweep stopped early (kept alive: processed sub-segments may
+    /// have their right event among them)
+    pub rest: Vec<E>,
 }
 
 pub fn run_sweep(pa: &MP, pb: &MP, op: Operation) -> Result<SweepOut, String> {
@@ -70,6 +73,7 @@ pub fn run_sweep_with(
             bound,
             events: hooks::events(),
             early: hooks::early_break_taken(),
+            rest: q.drain().collect(),
         }
     }))
     .map_err(panic_msg)
